@@ -304,6 +304,16 @@ def step (st : St) (cmd : String) (args : List String) : St × String :=
     match probe.mapM parseHexBytes with
     | some p => (st, Drv.CratesV2.render (Drv.CratesV2.obs { db := st.lib.crates, crates := st.crates, tracks := [] } p))
     | none => (st, "bad-op args")
+  | "reopen", [] =>
+    -- every handle destroyed, the database closed, load_database(dir), the variables re-obtained by id:
+    -- `Session.reload` — the stored library is what it was (no call leaves a transaction open), handles of
+    -- objects that no longer exist are gone
+    match st.schema with
+    | some s =>
+      let cs := st.crates.filter fun (_, i) => EngineModel.Db.V2.qValid st.lib.crates i
+      let ts := st.tracks.filter fun (_, i) => (st.lib.tdb.find i).isSome
+      ({ st with crates := cs, tracks := ts }, s!"ok {s.name} crates={cs.length} tracks={ts.length}")
+    | none => (st, "bad-op no database")
   | "lib2.raw", [] =>
     match st.schema with
     | some s => (st, sRaw s st.lib)
